@@ -19,6 +19,17 @@ def splitChars (sep : Char) : List Char → List Char → List (List Char)
 def pathSegs (p : String) : Segs :=
   ((splitChars '/' p.toList []).map String.ofList).filter (· ≠ "")
 
+/-- `"/" + "/".join(segments)` on characters -/
+def joinC : List (List Char) → List Char
+  | [] => ['/']
+  | [s] => '/' :: s
+  | s :: rest => '/' :: s ++ joinC rest
+
+/-- `DDSPathUtils._normalized` (since the `fix:` commit 82e4b93): the one spelling of a path - repeated and trailing separators
+carry no segment -/
+def normPath (p : String) : String :=
+  String.ofList (joinC ((splitChars '/' p.toList []).filter (fun s => !s.isEmpty)))
+
 /-- insertion into a sorted list of strings, dropping duplicates -/
 def insertStr (s : String) : List String → List String
   | [] => [s]
